@@ -55,6 +55,18 @@ def _src():
             L.append(f"{ind}x[{idx}] = src[{idx}] + 1.0")
             L.append(f"    dw_sum({shp[d]}, x[{coords}], out[0:1])")
             L.append("")
+    # 2-D *arguments* handed row- or column-wise to a callee that assumes unit stride (transpose / rearrange_dim /
+    # set_window of the argument must keep every call inside the callee's specification)
+    L += ["@proc", "def dwa_copy1(m: size, d: [f32][m], s: [f32][m]):", "    assert stride(d, 0) == 1",
+          "    assert stride(s, 0) == 1", "    for j in seq(0, m):", "        d[j] = s[j] + 1.0", ""]
+    L += ["@proc", "def dwa_copy(m: size, d: [f32][m], s: [f32][m]):", "    for j in seq(0, m):",
+          "        d[j] = s[j] + 1.0", ""]
+    for nm, callee, da, sa in (("dwa_rows1", "dwa_copy1", "out[i, 0:m]", "A[i, 0:m]"),
+                               ("dwa_rows", "dwa_copy", "out[i, 0:m]", "A[i, 0:m]"),
+                               ("dwa_mixed", "dwa_copy", "out[i, 0:m]", "B[0:m, i]")):
+        names.append(nm)
+        L += ["@proc", f"def {nm}(n: size, m: size, A: f32[n, m], B: f32[m, n], out: f32[n, m]):",
+              "    for i in seq(0, n):", f"        {callee}(m, {da}, {sa})", ""]
     return "\n".join(L), names
 
 
